@@ -38,7 +38,18 @@ def rr_type(rr):
     return p[3] if len(p) > 3 else "?"
 
 
-def classify(m):
+def dup_kinds(ev):
+    """types of the records an answer carries more than once (reporting detail; that there are any is the monitor's verdict)"""
+    flat = [r for m in ev["msgs"] for r in m["an"]]
+    seen, dups = set(), set()
+    for r in flat[1:-1]:
+        if r in seen:
+            dups.add(rr_type(r))
+        seen.add(r)
+    return ",".join(sorted(dups)) or "none"
+
+
+def classify(m, event_of=None):
     """monitor mismatch -> list of (class, fields).  Classification only: the verdict is the monitor's."""
     kind = m["kind"]
     if kind == "harness":
@@ -84,10 +95,13 @@ def classify(m):
     if "tc-clear" in failed:
         out.append((f"server:{scope}:truncated", fields))
         failed -= TRUNCATION_EXPLAINS
+    if "no-zone-data" in failed:
+        # zone data where none is owed: how many messages it takes is not a second defect
+        failed -= {"at-most-one", "one-message"}
     for f in sorted(failed):
         fl = dict(fields)
         if f == "once":
-            fl["dups"] = ",".join(sorted({rr_type(d) for d in m["dups"]})) or "many"
+            fl["dups"] = dup_kinds(event_of(m["case"])) if event_of else "?"
         if f in ("only-zone-records", "nothing-foreign"):
             fl["foreign"] = len(m["foreignSent"])
         out.append((f"server:{scope}:{f}", fl))
@@ -160,9 +174,11 @@ def run(res, tier, seed):
     # ---- the monitor judges every event of R and T
     lines = open(t_replay).read().splitlines(keepends=True) + open(t_rand).read().splitlines(keepends=True)
     events = {}
+    line_of = {}
     served = refused = conforming = 0
-    for ln in lines:
+    for li, ln in enumerate(lines):
         e = json.loads(ln)
+        line_of[e["case"]] = li
         if e["ev"] == "harness-error":
             raise vlib.ToolError(f"harness error event: {ln[:500]}")
         res.evaluations += 1
@@ -223,7 +239,7 @@ def run(res, tier, seed):
         detail["input"] = by_id.get(m["case"], {"recorded": m["case"], "seed": seed})
         if isinstance(detail["input"], dict) and "zone" in detail["input"] and len(json.dumps(detail["input"]["zone"])) > 4000:
             detail["input"] = dict(detail["input"], zone="(large; regenerate from shape)")
-        for cls, fields in classify(m):
+        for cls, fields in classify(m, lambda cid: json.loads(lines[line_of[cid]])):
             res.mismatch(cls, fields, detail)
 
 
